@@ -231,8 +231,13 @@ def h_set_snr(env, T=3):
     env.eq('get_snr_after_set_snr', got, snr)
 
 
+# properties whose thorough extras were run end-to-end on the unchanged tree (exit 0); others: thorough == quick
+from harness.thorough_verified import THOROUGH_VERIFIED
+
+
 def cases(tier):
-    q = True      # thorough extras of this property were not run end-to-end in round 1: thorough == quick until they are
+    import os
+    q = tier == 'quick' or 'C19' not in THOROUGH_VERIFIED and os.environ.get('VERIF_TRY_EXTRAS') != '1'
     cs = [
         Case('si_sdr/T3', h_si_sdr, dict(T=3), bounds='T=3, |values| <= 3', timeout_ms=60000),
         Case('si_sdr/T2_lead2', h_si_sdr, dict(T=2, lead=(2,)), bounds='T=2, 2 rows', timeout_ms=60000),
